@@ -71,6 +71,17 @@ func (cl *cluster) okFor(h primitives.BlockHeight, b interfaces.Block, hash prim
 	return out
 }
 
+// canonRef: the signed header is byte-for-byte what re-encoding its fields gives (no trailing or unknown bytes)
+func canonRef(r *protocol.BlockRef) bool {
+	b := &protocol.BlockRefBuilder{MessageType: r.MessageType(), InstanceId: r.InstanceId(), BlockHeight: r.BlockHeight(), View: r.View(), BlockHash: r.BlockHash()}
+	return string(b.Build().Raw()) == string(r.Raw())
+}
+
+func canonVote(c *protocol.ViewChangeMessageContent) bool {
+	re := interfaces.ExtractConfirmationsFromViewChangeMessages([]*interfaces.ViewChangeMessage{interfaces.NewViewChangeMessage(c, nil)})[0].Build()
+	return string(re.SignedHeader().Raw()) == string(c.SignedHeader().Raw())
+}
+
 func (cl *cluster) refAbs(prefix string, r *protocol.BlockRef, into obj) {
 	into[prefix+"vm"] = cl.vmod(r.BlockHeight(), r.View())
 	into[prefix+"ht"] = htName(r.MessageType())
@@ -105,7 +116,7 @@ func (cl *cluster) voteAbs(c *protocol.ViewChangeMessageContent) obj {
 	hd := c.SignedHeader()
 	return obj{"ht": htName(hd.MessageType()), "inst": cl.instAbs(hd.InstanceId()), "h": absNum(uint64(hd.BlockHeight())),
 		"v": absNum(uint64(hd.View())), "vm": cl.vmod(hd.BlockHeight(), hd.View()), "s": cl.nameOf(c.Sender().MemberId()),
-		"sig": cl.sigOK(hd.BlockHeight(), hd.Raw(), c.Sender()), "proof": cl.proofAbs(hd.PreparedProof())}
+		"sig": cl.sigOK(hd.BlockHeight(), hd.Raw(), c.Sender()), "proof": cl.proofAbs(hd.PreparedProof()), "canon": canonVote(c)}
 }
 
 func (cl *cluster) blockFits(b interfaces.Block, height primitives.BlockHeight, hash primitives.BlockHash) bool {
@@ -130,18 +141,18 @@ func (cl *cluster) msgAbs(raw *interfaces.ConsensusRawMessage) (out obj) {
 		c := rd.PreprepareMessage()
 		o := obj{"k": "PP", "s": cl.nameOf(c.Sender().MemberId()), "sig": cl.sigOK(c.SignedHeader().BlockHeight(), c.SignedHeader().Raw(), c.Sender()),
 			"blk": blk, "bok": cl.blockFits(raw.Block, c.SignedHeader().BlockHeight(), c.SignedHeader().BlockHash()),
-			"okfor": cl.okFor(c.SignedHeader().BlockHeight(), raw.Block, c.SignedHeader().BlockHash())}
+			"okfor": cl.okFor(c.SignedHeader().BlockHeight(), raw.Block, c.SignedHeader().BlockHash()), "canon": canonRef(c.SignedHeader())}
 		cl.refAbs("", c.SignedHeader(), o)
 		return o
 	case rd.IsMessagePrepareMessage():
 		c := rd.PrepareMessage()
-		o := obj{"k": "P", "s": cl.nameOf(c.Sender().MemberId()), "sig": cl.sigOK(c.SignedHeader().BlockHeight(), c.SignedHeader().Raw(), c.Sender())}
+		o := obj{"k": "P", "s": cl.nameOf(c.Sender().MemberId()), "sig": cl.sigOK(c.SignedHeader().BlockHeight(), c.SignedHeader().Raw(), c.Sender()), "canon": canonRef(c.SignedHeader())}
 		cl.refAbs("", c.SignedHeader(), o)
 		return o
 	case rd.IsMessageCommitMessage():
 		c := rd.CommitMessage()
 		o := obj{"k": "C", "s": cl.nameOf(c.Sender().MemberId()), "sig": cl.sigOK(c.SignedHeader().BlockHeight(), c.SignedHeader().Raw(), c.Sender()),
-			"share": cl.shareOK(uint64(c.SignedHeader().BlockHeight()), c.Sender().MemberId(), c.Share())}
+			"share": cl.shareOK(uint64(c.SignedHeader().BlockHeight()), c.Sender().MemberId(), c.Share()), "canon": canonRef(c.SignedHeader())}
 		cl.refAbs("", c.SignedHeader(), o)
 		return o
 	case rd.IsMessageViewChangeMessage():
@@ -164,11 +175,17 @@ func (cl *cluster) msgAbs(raw *interfaces.ConsensusRawMessage) (out obj) {
 		}
 		o["votes"] = votes
 		pp := c.Message()
-		ppo := obj{"s": cl.nameOf(pp.Sender().MemberId()), "sig": cl.sigOK(pp.SignedHeader().BlockHeight(), pp.SignedHeader().Raw(), pp.Sender())}
+		ppo := obj{"s": cl.nameOf(pp.Sender().MemberId()), "sig": cl.sigOK(pp.SignedHeader().BlockHeight(), pp.SignedHeader().Raw(), pp.Sender()), "canon": canonRef(pp.SignedHeader())}
 		cl.refAbs("", pp.SignedHeader(), ppo)
 		o["pp"] = ppo
 		o["bok"] = cl.blockFits(raw.Block, pp.SignedHeader().BlockHeight(), pp.SignedHeader().BlockHash())
 		o["okfor"] = cl.okFor(pp.SignedHeader().BlockHeight(), raw.Block, pp.SignedHeader().BlockHash())
+		canon := canonRef(pp.SignedHeader())
+		it2 := hd.ViewChangeConfirmationsIterator()
+		for it2.HasNext() {
+			canon = canon && canonVote(it2.NextViewChangeConfirmations())
+		}
+		o["canon"] = canon
 		return o
 	}
 	return obj{"k": "BAD"}
